@@ -21,7 +21,15 @@ def size(x):  # shadows the built-in size() for the program it is bound to
     return celtypes.IntType(4242)
 
 
-TABLE = {"hf_add1": hf_add1, "hf_boom": hf_boom, "size": size}
+def hf_refuse(x):
+    # reports failure the CEL way: returns the error as a value instead of raising
+    from celpy.evaluation import CELEvalError
+
+    return CELEvalError("refused by the host", ValueError, ("refused",))
+
+
+TABLE = {"hf_add1": hf_add1, "hf_boom": hf_boom, "size": size, "hf_refuse": hf_refuse}
+_SHARED = {}
 
 
 def variant(name, n):
@@ -45,4 +53,12 @@ def materialise(spec):
     fns = [variant(n, v) if (v and n == "hf_add1") else TABLE[n] for n in spec["names"]]
     if spec["style"] == "list":
         return fns
+    if spec.get("shared"):
+        # the application keeps one mapping object and hands it to several programs
+        key = (id(__import__("sys").modules.get("celpy")), tuple(spec["names"]), v)
+        d = _SHARED.get(key)
+        if d is None:
+            _SHARED.clear()  # mappings belong to one run (one set of celpy modules)
+            d = _SHARED[key] = {n: f for n, f in zip(spec["names"], fns)}
+        return d
     return {n: f for n, f in zip(spec["names"], fns)}
